@@ -729,6 +729,7 @@ exh:
 			{"start", "clients=75", "restart", "clients=33", "stop"},
 			{"tracer-fails-once", "start", "start", "stop"},
 			{"tracer-fails-once", "start", "stop", "start", "stop"},
+			{"start", "garbage=1100", "restart", "stop"},
 			{"start", "start-again", "stop"},
 			{"start", "start-again", "restart", "start-again", "stop", "start", "stop"},
 			{"start", "settlsport0", "start-again", "stop"},
